@@ -131,7 +131,13 @@ def run_once(contract_obj, case, ctx):
 def eval_clauses(contract_obj, s, extra_regions=None):
     out = []
     for name, fn in contract_obj.ensures.items():
-        val = fn(s)
+        try:
+            val = fn(s)
+        except (KeyError, IndexError, AttributeError, TypeError, ValueError) as e:
+            # the outcome does not even have the shape the clause talks about (a field, an event, a result is
+            # missing): the clause does not hold on this path
+            s.w.ctx.notes.append("clause %s not evaluable: %r" % (name, e))
+            val = False
         out.append((name, truth_val(val) if not isinstance(val, (bool, SBool)) else val))
     return out
 
@@ -209,6 +215,7 @@ def run_case(cid, case_id, tier="quick", known_regions=None, seed=0):
     both = tier == "thorough"
     stats = Stats()
     stats.queries = 0
+    stats.deadline = t_start + budget_s
     res = {"contract": cid, "case": case_id, "target": c.target, "paths": 0, "clauses": {}, "exits": {},
            "undecided": None, "by_backend": {}, "exact": "proved", "sample_pre": None}
     for name in c.ensures:
@@ -345,12 +352,38 @@ def sample_model(ctx):
 # --------------------------------------------------------------------------------------------
 # concrete runs: engine (conc mode) and native
 
+class _TimeLimit:
+    """wall-clock limit for concrete / native executions (a changed tree may not terminate)"""
+
+    def __init__(self, seconds):
+        self.seconds = seconds
+
+    def __enter__(self):
+        import signal
+        import threading
+        self.active = threading.current_thread() is threading.main_thread()
+        if self.active:
+            def _raise(signum, frame):
+                raise Unsupported("concrete execution exceeded %d s (non-terminating?)" % self.seconds)
+            self.old = signal.signal(signal.SIGALRM, _raise)
+            signal.setitimer(signal.ITIMER_REAL, self.seconds)
+        return self
+
+    def __exit__(self, *a):
+        if self.active:
+            import signal
+            signal.setitimer(signal.ITIMER_REAL, 0)
+            signal.signal(signal.SIGALRM, self.old)
+        return False
+
+
 def run_conc(cid, case_id, oracle, seed=0):
     """Engine in concrete mode. -> dict(outcome, clauses{name: bool}, oracle)"""
     c = REGISTRY[cid]
     case = c.cases[case_id] if isinstance(c.cases, dict) else case_id
     ctx = Ctx("conc", oracle=dict(oracle or {}), rng=random.Random(seed))
-    s = run_once(c, case, ctx)
+    with _TimeLimit(30):
+        s = run_once(c, case, ctx)
     clauses = {}
     for name, goal in eval_clauses(c, s):
         if isinstance(goal, SBool):
@@ -374,8 +407,11 @@ def run_native(cid, case_id, oracle):
     call = c.setup(w, case)
     ret = exc = None
     try:
-        ret = w.run(call)
+        with _TimeLimit(30):
+            ret = w.run(call)
     except Wd.NativeAbort:
+        raise
+    except Unsupported:
         raise
     except Exception as e:
         exc = e
@@ -411,6 +447,9 @@ def xcheck(cid, case_id, n, seed):
             nat = run_native(cid, case_id, r["oracle"])
         except Wd.NativeAbort:
             continue
+        except Unsupported as e:
+            bad.append({"error": "native run: %s" % e})
+            break
         runs += 1
         if not same_outcome(r["outcome"], nat):
             bad.append({"oracle": jsonable(r["oracle"]), "engine": r["outcome"], "native": nat})
@@ -442,6 +481,10 @@ def replay(cid, case_id, clause, oracle):
     except Wd.NativeAbort as e:
         out["status"] = "model-not-confirmed"
         out["why"] = "native world rejected the pre-state: %s" % e
+        return out
+    except Unsupported as e:
+        out["status"] = "model-not-confirmed"
+        out["why"] = "native run: %s" % e
         return out
     out["native"] = nat
     out["status"] = "reproduced" if same_outcome(r["outcome"], nat) else "engine-mismatch"
